@@ -47,6 +47,7 @@ def json_compound_ids(j, out=None):
 
 
 F16F = "F16f"
+F16G = "F16g"
 
 
 def siblings_equal_as_json(o):
@@ -106,7 +107,23 @@ def do_case(ctx, inp):
     emitted = json_compound_ids(j)
     extra = sorted(emitted - ex)
     if extra:
-        ctx.fail("id-emitted-for-generated-id", {"ids": extra, "json": j}); return
+        # known finding F16g: a defaulted cc.Xor rebuilds its "at least one" half as a cc.Any around the old node's variable
+        # OBJECT, so that half's generated id counts as explicit from then on; wherever the half is written on its own (the
+        # re-negated condition of an Imply, a Not) its id is emitted although the caller never gave it
+        half_ids = set()
+        def halves(x):
+            if isinstance(x, dict):
+                if x.get("c") == "ccXor" and x.get("default"):
+                    try:
+                        for k_ in build(x).propositions:
+                            if isinstance(k_, cc.Any): half_ids.add(k_.id)
+                    except Exception:
+                        pass
+                for v_ in x.values(): halves(v_)
+            elif isinstance(x, list):
+                for v_ in x: halves(v_)
+        halves(a)
+        ctx.fail("id-emitted-for-generated-id", {"ids": extra, "json": j}, known=F16G if set(extra) <= half_ids else None); return
     if is_cfg:
         d1 = {n["id"]: [tuple(x) for x in n["default"]] for n in subs(t) if n["k"] == "node" and n["default"] and n["id"] in ex}
         d2 = {n["id"]: [tuple(x) for x in n["default"]] for n in subs(t2) if n["k"] == "node" and n["default"] and n["id"] in ex}
@@ -193,6 +210,29 @@ def run(ctx):
         if is_var(o) or not well_formed(snap(o)) or o.errors():
             continue
         ctx.tags["single-variable-threshold-stream"] += 1
+        do_case(ctx, {"ast": a})
+    for _ in range(max(20, n // 12)):
+        # a defaulted choice as a member of each of the plain connectives in turn (XNor, Xor, ExactlyOne, All, Any, AtLeast,
+        # AtMost, both sides of an Imply, below a Not): the configurator's class map reaches every position
+        its = rng.sample(list("abcdefgh"), 6)
+        lf = lambda x: {"c": "str", "id": x}
+        ch = {"c": rng.choice(["ccAny", "ccXor"]), "args": [lf(its[0]), lf(its[1]), lf(its[2])], "default": [its[rng.randrange(3)]]}
+        if rng.random() < 0.6: ch["id"] = "G"
+        pos = rng.choice(["XNor", "XNor", "Xor", "ExactlyOne", "All", "Any", "AtLeast", "AtMost", "ImplyCond", "ImplyCons", "Not"])
+        if pos in ("XNor", "Xor", "ExactlyOne", "All", "Any"): r = {"c": pos, "args": [ch, lf(its[3])]}
+        elif pos == "AtLeast": r = {"c": "AtLeast", "v": rng.randint(1, 2), "args": [ch, lf(its[3])]}
+        elif pos == "AtMost": r = {"c": "AtMost", "v": 1, "args": [ch, lf(its[3])]}
+        elif pos == "ImplyCond": r = {"c": "Imply", "cond": ch, "cons": lf(its[3])}
+        elif pos == "ImplyCons": r = {"c": "Imply", "cond": lf(its[3]), "cons": ch}
+        else: r = {"c": "Any", "args": [{"c": "Not", "arg": ch}, lf(its[3])]}
+        if rng.random() < 0.6: r["id"] = "R"
+        a = {"c": "Stingy", "id": "cfg", "args": [r, {"c": "Any", "args": [lf(its[4]), lf(its[5])], "id": "S"}]}
+        try:
+            o = build(a)
+            if not well_formed(snap(o)) or o.errors(): continue
+        except Exception:
+            continue
+        ctx.tags["defaulted-choice-below-" + pos] += 1
         do_case(ctx, {"ast": a})
     for _ in range(n):
         if rng.random() < 0.35:
